@@ -53,9 +53,12 @@ func (l *DeadlineLimiter) tryAcquire(ctx context.Context) (listener core.Listene
 			return nil, false
 		}
 
-		// try to acquire a new token and return immediately if successful
+		// try to acquire a new token and return immediately if successful. The attempt is made under the
+		// condition's lock, which is kept until the waiter is registered, so a release cannot slip in between.
+		l.c.L.Lock()
 		listener, ok := l.delegate.Acquire(ctx)
 		if ok && listener != nil {
+			l.c.L.Unlock()
 			l.logger.Debugf("delegate returned a listener ctx=%v", ctx)
 			return listener, true
 		}
@@ -64,6 +67,7 @@ func (l *DeadlineLimiter) tryAcquire(ctx context.Context) (listener core.Listene
 		timeout := l.deadline.Sub(time.Now().UTC())
 		if timeout <= 0 {
 			// the deadline passed while acquiring; a non-positive timeout would wait without a timer
+			l.c.L.Unlock()
 			return nil, false
 		}
 
@@ -72,7 +76,7 @@ func (l *DeadlineLimiter) tryAcquire(ctx context.Context) (listener core.Listene
 		// - A timeout
 		// - The context is cancelled
 		l.logger.Debugf("Blocking waiting for release or timeout ctx=%v", ctx)
-		if shouldAcquire := blockUntilSignaled(ctx, l.c, timeout); shouldAcquire {
+		if shouldAcquire := blockUntilSignaledLocked(ctx, l.c, timeout); shouldAcquire {
 			listener, ok := l.delegate.Acquire(ctx)
 			if ok && listener != nil {
 				l.logger.Debugf("delegate returned a listener ctx=%v", ctx)
